@@ -63,8 +63,13 @@ func (self SyntaxError) description() string {
 }
 
 func calcBounds(size int, pos int) (lbound int, lwidth int, rbound int, rwidth int) {
-	if pos >= size || pos < 0 {
-		return 0, 0, size, 0
+	/* a position outside the source (every EOF error has pos == len(src)) shows the
+	 * nearest end of the source instead of echoing all of it */
+	if pos >= size {
+		pos = size - 1
+	}
+	if pos < 0 {
+		pos = 0
 	}
 
 	i := 16
